@@ -19,6 +19,7 @@ DECIDED += '; R2 also: the in-flight and ready pools change one element at a tim
 DECIDED += "; R10 no panicking arithmetic on the guest's offset in the executors, or unrepresentable ranges completed with an immediate error at submit; R6 also: completion deadlines saturate and the waiter's deadline is computed with a checked addition; R4 also: both siblings report an injected corruption"
 DECIDED += '; R4 also: the short-read draw starts at 1 and the injected flush follows the write, in the ring as in the file API'
 DECIDED += "; R11 the file shim's two fd tables (open_handles, direct_io_fds) are extended and shrunk together; flag rejection never tests that a masked bit is absent"
+DECIDED += '; R1 also: a found target is removed from whichever pool holds it; R4 also: the alignment check precedes the injected-fault draw; R12 PendingApply::execute is called only from the completion drain; the flush result is the fsync result (shared C07-R7)'
 ASSUMPTIONS = ["the consumer keeps buffers alive until the CQE is reaped (io_uring contract)"]
 
 RS = "turmoil_io_uring::sim::RingState::"
